@@ -160,36 +160,62 @@ def run_groups(prop, groups, tier, workdir, only_harness=None):
         if pl["todo"]:
             classes.setdefault((pl["n"], pl["unwind"], pl["G"].get("features", "alloc")), []).append(pl)
     for (n, unwind, feats), pls in classes.items():
-        names = [h["name"] for pl in pls for h in pl["todo"]]
         tag = "+".join(pl["g"] for pl in pls)
         tdir = os.path.join(workdir if alt else os.path.join(vxlib.WORK, "kani"), "target-n%s-u%s" % (n, unwind))
         env = dict(os.environ, CARGO_NET_OFFLINE="true", VERIF_KANI_N=str(n), CARGO_TERM_COLOR="never")
         env.pop("RUSTUP_TOOLCHAIN", None)
-        jobs = min(len(names), int(os.environ.get("VERIF_KANI_JOBS", "14")))
-        extra = ["--target-dir", tdir, "--output-format", "terse", "--exact", "-j", str(jobs), "--default-unwind", str(unwind)]
-        for nm in names:
-            extra += ["--harness", nm]
-        cmd = kani_cmd(feats, extra)
-        short = kani_cmd(feats, ["--target-dir", tdir, "--output-format", "terse", "--exact", "-j", str(jobs), "--default-unwind", str(unwind), "--harness", "<%d harnesses of groups %s>" % (len(names), tag)])
-        cmds.append("(cd %s && VERIF_KANI_N=%s CARGO_NET_OFFLINE=true %s)" % (repo, n, " ".join(short)))
         tmo = sum(pl["G"].get("timeout", {}).get(tier, 3000) for pl in pls)
-        rc, out, wall = _run(cmd, repo, env, tmo)
-        open(os.path.join(workdir, "kani_%s.log" % tag[:80]), "w").write(out)
-        if rc == -9:
-            infra.append("groups %s: timeout after %ds" % (tag, tmo))
-            continue
-        if re.search(r"^error(\[E\d+\])?:", out, re.M) and "Checking harness" not in out:
-            infra.append("groups %s: build failed: %s" % (tag, "\n".join(l for l in out.split("\n") if l.startswith("error"))[:1500]))
-            continue
-        allres = parse_terse(out)
-        for pl in pls:
-            for h in pl["todo"]:
-                r = allres.get(h["name"])
+        owner = {h["name"]: pl for pl in pls for h in pl["todo"]}
+        normal = [h["name"] for pl in pls for h in pl["todo"] if not h.get("heavy")]
+        heavy = [h["name"] for pl in pls for h in pl["todo"] if h.get("heavy")]
+
+        def invoke(names, jobs, label):
+            """one `cargo kani` run over `names`; returns parsed results or None (infra recorded)"""
+            extra = ["--target-dir", tdir, "--output-format", "terse", "--exact", "-j", str(jobs), "--default-unwind", str(unwind)]
+            for nm in names:
+                extra += ["--harness", nm]
+            cmd = kani_cmd(feats, extra)
+            short = kani_cmd(feats, ["--target-dir", tdir, "--output-format", "terse", "--exact", "-j", str(jobs), "--default-unwind", str(unwind), "--harness", "<%d harnesses of groups %s%s>" % (len(names), tag, label)])
+            cmds.append("(cd %s && VERIF_KANI_N=%s CARGO_NET_OFFLINE=true %s)" % (repo, n, " ".join(short)))
+            rc, out, wall = _run(cmd, repo, env, tmo)
+            open(os.path.join(workdir, "kani_%s%s.log" % (tag[:80], label.replace(" ", "_").replace(",", ""))), "w").write(out)
+            if rc == -9:
+                infra.append("groups %s%s: timeout after %ds" % (tag, label, tmo))
+                return None
+            if re.search(r"^error(\[E\d+\])?:", out, re.M) and "Checking harness" not in out:
+                infra.append("groups %s: build failed: %s" % (tag, "\n".join(l for l in out.split("\n") if l.startswith("error"))[:1500]))
+                return None
+            return parse_terse(out)
+
+        def record(allres, names):
+            for nm in names:
+                r = allres.get(nm)
                 if r is None:
                     continue
-                pl["res"][h["name"]] = r
+                pl = owner[nm]
+                pl["res"][nm] = r
                 if r["status"] in ("SUCCESSFUL", "FAILED") and not only_harness:
-                    json.dump(r, open(os.path.join(pl["kdir"], h["name"].replace("::", ".") + ".json"), "w"))
+                    json.dump(r, open(os.path.join(pl["kdir"], nm.replace("::", ".") + ".json"), "w"))
+
+        build_ok = True
+        if normal:
+            allres = invoke(normal, min(len(normal), int(os.environ.get("VERIF_KANI_JOBS", "14"))), "")
+            if allres is None:
+                build_ok = False
+            else:
+                record(allres, normal)
+        # memory-heavy harnesses run one at a time, after the batch, so that their peaks never add up
+        if heavy and build_ok:
+            allres = invoke(heavy, 1, " heavy, serial")
+            if allres is not None:
+                record(allres, heavy)
+        # a harness that CBMC could not finish for lack of memory (machine busy) is retried once, alone
+        if build_ok:
+            oom = [nm for nm in normal + heavy if owner[nm]["res"].get(nm, {}).get("status") == "ERROR"]
+            if oom and len(oom) <= 8:
+                allres = invoke(oom, 1, " retry after out-of-memory, serial")
+                if allres is not None:
+                    record(allres, oom)
     # ---- phase 3: verdicts
     for pl in plan:
         g, G, n, hs, res = pl["g"], pl["G"], pl["n"], pl["hs"], pl["res"]
